@@ -75,7 +75,9 @@ class C20(PropBase):
             prog.append(('addnode', 1, pi(x), 0))
         ptabs = [{pi(k): v for k, v in t.items()} for t in tabs]
         prog.append(('dconf', 1, False, a[1], a[2], a[3], a[4], a[5], ptabs))
-        # reachability inside the window, for the single-label statement
+        # reachability inside the window, for the single-label statement: asked of the graph itself (presence), not
+        # derived from the library's own path search
+        prog += [('has', 0, u, w, t) for t in range(a[1], a[1] + max(a[2], 0) + 1) for u in ns for w in ns if u != w]
         prog += [('slice', 0, 2, a[1], a[1] + a[2]), ('alltrp', 2, None, None, None), ('nodes', 2, a[1])]
         return prog
 
@@ -116,7 +118,8 @@ class C20(PropBase):
             else:
                 bad(dq[-1], 'permuted graph gave %r' % (pq,))
             if isinstance(same, dict):
-                reach = {p[0][0] for p in paths if p[0][0] != p[-1][1]}
+                ids0 = next((r for op, r in zip(prog, ri) if op[0] == 'ids' and op[1] == 0), [])
+                reach = {op[2] for op, r in zip(prog, ri) if op[0] == 'has' and op[1] == 0 and r is True and op[4] in ids0}
                 for k, v in same.items():
                     exp = 1.0 if k[3] in reach else 0.0
                     if abs(float(v) - exp) > 1e-9:
